@@ -1,4 +1,5 @@
 //@host src/io_loop/mod.rs
+//@quick (generic sweep without wall-clock dependence: also runs in the quick tier, labelled bounded)
 // C09 bounded stand-in, end to end through the public API (real I/O thread, in-memory broker): three open channels; the server closes
 // channel 2 in every combination of {a call in flight on 2, content half received on 2, 0/1/2 consumers on 2, a call in flight on channel 3}.
 // Oracle = the property: the call in flight (or else the next call) on 2 fails with ServerClosedChannel carrying 2 and the server's code and
